@@ -305,6 +305,10 @@ fn get_imsaak(
         };
 
         hours = get_hours_adj_ext(&params_adj, top_astro_day, weather);
+        // Imsaak obtained this way is a fallback, not the conventional Imsaak: flag it.
+        if let Some(Ok(hour)) = hours.get_mut(&Fajr) {
+            hour.extreme = true;
+        }
     }
 
     hours[&Fajr].map(|x| to_prayer_time(&params_adj, Fajr, x))
